@@ -320,3 +320,58 @@ pub fn finish(args: &Args, rep: &Report) {
         None => println!("{}", s),
     }
 }
+
+// ---------------------------------------------------------------- generic (non-session) cases
+
+pub fn case_replay(args: &Args, case: u64, input: J) -> J {
+    J::obj()
+        .set("kind", J::s("case"))
+        .set("workload", J::s(&args.workload))
+        .set("tier", J::s(if args.thorough { "thorough" } else { "quick" }))
+        .set("seed", J::Int(args.seed as i64))
+        .set("shard", J::Int(args.shard as i64))
+        .set("nshards", J::Int(args.nshards as i64))
+        .set("case", J::Int(case as i64))
+        .set("args", J::Arr(args.extra.iter().map(J::s).collect()))
+        .set("input", input)
+}
+
+/// Helper to report a violation from a component workload
+pub fn report(rep: &mut Report, args: &Args, prop: &str, clause: &str, tag: &str, case: u64, size: usize, input: J, detail: String) {
+    if args.verbose {
+        println!("FOUND property={} clause={} tag={} case={}: {}", prop, clause, tag, case, detail);
+    }
+    rep.violation(Violation {
+        property: prop.to_string(),
+        clause: clause.to_string(),
+        tag: tag.to_string(),
+        detail,
+        replay: case_replay(args, case, input),
+        size,
+    });
+}
+
+/// Cases `0..n` of this shard (already partitioned by the caller or via `mine`).
+pub fn run_cases(args: &Args, prop: &str, n: u64, rep: &mut Report, f: &mut dyn FnMut(u64, &mut Report)) {
+    let lo = args.only.unwrap_or(args.start);
+    let hi = args.only.map(|o| o + 1).unwrap_or(args.end.unwrap_or(n).min(n));
+    for idx in lo..hi {
+        if args.dump_case == Some(idx) {
+            println!("case {} of workload {}", idx, args.workload);
+            return;
+        }
+        CUR_CASE.store(idx, Ordering::Relaxed);
+        rep.cases += 1;
+        let r = guarded(|| f(idx, rep));
+        if let Err(msg) = r {
+            let tag = panic_tag(&msg);
+            report(rep, args, prop, "crash", &tag, idx, 1, J::Null, format!("panic in case {}: {}", idx, msg));
+        }
+    }
+    CUR_CASE.store(u64::MAX, Ordering::Relaxed);
+}
+
+/// Round-robin ownership of chunk `c` for this shard
+pub fn mine(args: &Args, c: u64) -> bool {
+    c % args.nshards.max(1) == args.shard
+}
